@@ -118,14 +118,22 @@ theorem screen_transparent (src : Str) (h : src.any forbiddenChar = false) :
   | some p => rw [hd] at h'; cases h'
   | none => unfold parseDocument; rw [hd]
 
+/-- the specification's verdict (for every nesting limit) on a text with a forbidden code point, next
+to the model's -/
+theorem screen_agrees_with_verdictWith (limit : Option Nat) (src : Str)
+    (h : src.any forbiddenChar = true) :
+    verdictWith limit src = .reject "forbidden code point" ∧
+    ∃ e sp, parseDocument src = .error (.Lexer e sp) := by
+  refine ⟨?_, ?_⟩
+  · unfold verdictWith; rw [h]; rfl
+  · obtain ⟨e, sp, hp, _⟩ := screen_before_lexing src h
+    exact ⟨e, sp, hp⟩
+
 /-- the specification's verdict on a text with a forbidden code point, next to the model's -/
 theorem screen_agrees_with_verdict (src : Str) (h : src.any forbiddenChar = true) :
     verdict src = .reject "forbidden code point" ∧
-    ∃ e sp, parseDocument src = .error (.Lexer e sp) := by
-  refine ⟨?_, ?_⟩
-  · unfold verdict; rw [h]; rfl
-  · obtain ⟨e, sp, hp, _⟩ := screen_before_lexing src h
-    exact ⟨e, sp, hp⟩
+    ∃ e sp, parseDocument src = .error (.Lexer e sp) :=
+  screen_agrees_with_verdictWith none src h
 
 /-- the position of the error is determined: any decomposition at a first forbidden code point
 gives the reported span -/
